@@ -176,6 +176,11 @@ func checkC07(P *Program, r *Result, tier string) {
 				if m == ssa.Instruction(retCallOf(ev)) {
 					continue // the tail call itself is checked on its own
 				}
+				// a mutation that only happens where this very error was tested nil is on the succeeding way
+				// (single exit: err := check(); if err == nil { load() }; return err)
+				if guardedNil(m, ev) {
+					continue
+				}
 				if reachesWithout(m, ret, func(ssa.Instruction) bool { return false }) {
 					bad = "mutation at " + P.pos(instrPos(m)) + " can precede this failing return"
 				}
